@@ -201,6 +201,19 @@ Section Healthy.
     WFdirs a /\ AInv a /\ get a PHeader = Some (Good PlJson)
     /\ forall b, In (DBand b) (dirs a) -> BandHealthy a b.
 
+  (* the same with any tail content that does not state a wrong count (a tail that does not
+     decode states none): what the readers need *)
+  Definition BandReadable (a : arch) (b : N) : Prop :=
+    get a (PHead b) = Some (Good (PlHead HvOk))
+    /\ exists n,
+         (forall h, get a (PHunk b h) <> None -> h < n)
+         /\ (forall h, h < n -> exists es, get a (PHunk b h) = Some (Good (PlHunk es)))
+         /\ (tail_count a b = None \/ tail_count a b = Some n).
+
+  Definition Readable (a : arch) : Prop :=
+    WFdirs a /\ AInv a /\ get a PHeader = Some (Good PlJson)
+    /\ forall b, In (DBand b) (dirs a) -> BandReadable a b.
+
   (* ---- boolean checkers (sound: ValidP.v) ---- *)
   Fixpoint nodup_dirs (l : list dpath) : bool :=
     match l with
